@@ -988,10 +988,9 @@ class Client():
 
         self.connector.tx(request)
 
-        if method is not None:
-            self.respondent.reinit(method=self.requester.method)
-        else:
-            self.respondent.reinit()  # reset code status reason
+        # reset code status reason. Always pass the method actually sent since
+        # reinit defaults method to GET which makes a HEAD response wait for a body
+        self.respondent.reinit(method=self.requester.method)
 
     def redirect(self):
         """
